@@ -1017,6 +1017,10 @@ func (x *Exec) step(f *Frame, st *State, ins ssa.Instruction) bool {
 			loaded := x.load(st, sv)
 			arr, ok := loaded.(*GoArray)
 			if ok && lo == nil && hi == nil {
+				if len(arr.Elems) == 0 && SortOf(in.Type()) == SCoins {
+					f.regs[in] = ZeroOf(SCoins) // sdk.Coins{}
+					break
+				}
 				f.regs[in] = &GoSlice{Elems: arr.Elems}
 				break
 			}
